@@ -19,6 +19,10 @@ from harness import probes
 PROP = "C06"
 TARGETS = ["IbicusModel.Props.C06Inst", "IbicusModel.Props.C06Detrend", "IbicusModel.Lemmas.GenLoops"]
 GEN = ["Windows", "Debiasers", "PrecipFit", "Loops"]
+TARGETS += ["IbicusModel.Props.Capstone2"]  # capstone 2: C06 stated on the composition of the regenerated pieces (loop spec ∘ per-window program / kernel / ISIMIP wiring); the audit imports it
+GEN += ["Loops", "GridLoops", "DebWin", "Debiasers", "IsimipStep6"]  # the groups the capstone composes (lean_phase regenerates every transitively imported group anyway)
+TARGETS += ["IbicusModel.Lemmas.GenIsimipSteps3"]  # ISIMIP step 2 (`_step2_impute_values`) regenerated as data and denoting Model.Isimip.step2Impute (F21 is stated on it); the audit imports it
+GEN += ["IsimipStep2"]
 
 PERM_KINDS = ["full", "blockswap", "rotate", "reverse", "identity"]
 PR_THR = 0.0000011574  # lower threshold of ISIMIP's pr settings
